@@ -822,8 +822,12 @@ StarCycEntered ==
 StarCycFeatures ==
   LET e == StarCycEntered IN
   IF e = 0 THEN {}
-  ELSE LET how == IF \E i \in Idx(e) : Body(e)[i].op = "star" /\ Kind(Body(e)[i].t) # "esm" THEN "leafhere"
-                  ELSE IF DynFallback(e) THEN "leafelsewhere" ELSE "static"
+  ELSE LET cycle == {c \in StarReach({e}, {}) : Kind(c) = "esm" /\ e \in StarReach({c}, {})}     \* the members (e included)
+           \* c re-exports, from outside the cycle, something whose names are only known at run time
+           OutDyn(c) == \E i \in Idx(c) : /\ Body(c)[i].op = "star" /\ Body(c)[i].t \notin cycle
+                                          /\ (Kind(Body(c)[i].t) # "esm" \/ DynFallback(Body(c)[i].t))
+           how == IF OutDyn(e) THEN "leafhere"
+                  ELSE IF \E c \in cycle \ {e} : OutDyn(c) THEN "leafelsewhere" ELSE "static"
            cls == IF StarCjs(e) # {} THEN "cjs" ELSE "esm" IN
        UNION {{"starcyc:" \o Body(m)[i].op \o ">" \o how \o ":" \o cls :
                  i \in {j \in Idx(m) : Body(m)[j].t = e /\ Body(m)[j].op \in {"rns", "rd", "star", "starns", "rex", "dyn"}}} :
